@@ -657,12 +657,18 @@ class ModuleInfo:
         if self.module_source is not None:
             return self.module_source
         else:
-            return util.read_python_file(self.module_filename)
+            # (a module wrapped by ModuleTemplate knows its own file)
+            return util.read_python_file(
+                self.module_filename or getattr(self.module, "__file__", None)
+            )
 
     @property
     def source(self):
         if self.template_source is None:
-            data = util.read_file(self.template_filename)
+            data = util.read_file(
+                self.template_filename
+                or getattr(self.module, "_template_filename", None)
+            )
             if self.module._source_encoding:
                 return data.decode(self.module._source_encoding)
             else:
